@@ -485,7 +485,7 @@ def bioOp (b : Bio) : POp → PRes × Bio
   | .isatty => (.bool false, b)
   | .seekable => (.bool true, b)
   | .readable => (.bool true, b)
-  | .writable => (.bool false, b)         -- the one constant that differs from BytesIO (see `proxy_window`)
+  | .writable => (.bool true, b)          -- the one constant answer that differs from the proxy (see `proxy_window`)
   | .fileno => (.err (.other "OSError"), b)   -- `io.UnsupportedOperation` is an `OSError`
   | .closed => (.bool false, b)
   | .close => (.none, b)
